@@ -52,9 +52,9 @@ claim('C07', 'deductive VCs (pyvc): decision tables (home trash path, candidate 
 claim('C08', 'deductive VCs (pyvc): decision-table equivalence of the write-side and read-side checks; scanner and restore directory VCs for arbitrary volumes',
       'the .Trash/$uid candidate is touched by put only when $topdir/.Trash is a sticky non-symlink directory; the scanner (list/empty/rm) and restore yield it iff it exists and is secure; list reports a skipped directory on stderr',
       PUT_TB + '; state based (TOCTOU outside the statement)', 'DESIGN.md section 4 C08')
-claim('C16', 'deductive VCs (pyvc): run_put/trash_each (bounded list length), trash_single nothrow + diagnostics, trash_file diagnostics',
+claim('C16', 'deductive VCs (pyvc): run_put/trash_each for argument lists of every length (loop invariant over the failed list) and, redundantly, for 0..3 concrete arguments; trash_single nothrow + diagnostics, trash_file diagnostics; option VC',
       'every argument is processed once, in order, with the same options; exit 0 iff no argument failed; every failure is preceded by a stderr line naming the argument; no exception escapes for any argument',
-      PUT_TB + '; BOUNDED: argument lists of length 0..3 in the run_put VC, <= 2 option tokens in the option VC', 'DESIGN.md section 4 C16')
+      PUT_TB + '; BOUNDED: <= 2 option tokens in the option VC', 'DESIGN.md section 4 C16')
 claim('C17', 'deductive VCs (pyvc): all-paths fault forking of every primitive, termination variant of the retry loop, C01 monitor on every fault path',
       'every primitive of the put attempt fails with an arbitrary errno on some path of the VC; all paths end in the C01 post state; the name-search loop has a decreasing variant; every failure reason leads to the next candidate and a diagnostic',
       PUT_TB, 'DESIGN.md section 4 C17')
